@@ -106,9 +106,14 @@ def pretty_timezone(tz, ctx):
     if tz == timezone.utc:
         return identifier('datetime.timezone.utc')
 
-    if tz._name is None:
-        return pretty_call_alt(ctx, timezone, args=(tz._offset, ))
-    return pretty_call_alt(ctx, timezone, args=(tz._offset, tz._name))
+    # The C implementation of datetime.timezone has no _offset/_name
+    # attributes; use the documented accessors only.
+    offset = tz.utcoffset(None)
+    name = tz.tzname(None)
+    if name == timezone(offset).tzname(None):
+        # The name is the one generated from the offset.
+        return pretty_call_alt(ctx, timezone, args=(offset, ))
+    return pretty_call_alt(ctx, timezone, args=(offset, name))
 
 
 def pretty_pytz_timezone(tz, ctx):
